@@ -3,18 +3,227 @@ import os
 
 import numpy as np
 
-from harness import subproc
+import json
+
+from harness import coqio, subproc
 from harness.common import Check
 from translate import libio as t_libio, persist as t_persist
 
-THEOREMS = ["C15_state_roundtrip", "C15_wiring_persisted", "C15_needs_wiring", "C15_lib_roundtrip", "C15_load_configuration"]
+THEOREMS = ["C15_state_roundtrip", "C15_wiring_persisted", "C15_needs_wiring", "C15_lib_roundtrip", "C15_load_configuration",
+            "C15_persist_source", "C15_dense_roundtrip", "C15_dense_roundtrip_eval", "C15_dense_load_sound", "C15_dense_load_installs",
+            "C15_dense_load_rejects", "C15_conv_roundtrip", "C15_conv_load_sound", "C15_conv_rejects_geometry", "C15_conv_rejects_pairs",
+            "C15_thermo_roundtrip", "C15_thermo_needs_flag"]
 TRUSTED = [
     "Coq 8.16.1 kernel/coqc; theorems closed under the global context",
     "translators translate/persist.py (introspection of live layers: a state_dict round trip into a layer rebuilt under another RNG state "
-    "restores indices / kernel_pairs for every class and connection scheme) and translate/libio.py",
+    "restores indices / kernel_pairs for every class and connection scheme), translate/persist.py:gen_persist_src (get/set_extra_state, "
+    "_load_from_state_dict, _geometry of the layers equal, statement by statement, the code modelled by dense_load / conv_load / thermo_load) and translate/libio.py",
+    "torch.nn.Module.load_state_dict itself (a parameter is copied only when the shapes agree, `_extra_state` is handed to set_extra_state) is "
+    "modelled from its documentation and exercised: the decision and the result of dense_load / conv_load evaluated in the kernel are compared with "
+    "load_state_dict on real, foreign, old-format and tampered checkpoints",
     "partial: torch.save / torch.load serialisation, the dynamic loader and the file system are outside the model; the two-process histories "
     "below exercise them",
 ]
+
+
+# ---------------------------------------------------------------------------------------------------------------------
+def _zl(xs):
+    return "[" + "; ".join(f"({int(v)})" for v in xs) + "]%Z"
+
+
+def _nl(xs):
+    return "[" + "; ".join(str(int(v)) for v in xs) + "]%nat"
+
+
+def _tens(t):
+    return f"{{| shp := {_nl(t.shape)}; dat := {_zl(t.reshape(-1).tolist())} |}}"
+
+
+def _geom(g):
+    rf = g["receptive_field_size"]
+    rfc = f"inr {_nl(rf)}" if isinstance(rf, (tuple, list)) else f"inl {int(rf)}%nat"
+    return (f"{{| g_in := {_nl(g['in_dim'])}; g_channels := {g['channels']}; g_kernels := {g['num_kernels']}; g_depth := {g['tree_depth']}; "
+            f"g_stride := {g['stride']}; g_padding := {g['padding']}; g_rf := {rfc} |}}")
+
+
+def _conv_gates(sd_or_layer):
+    """gate ids per level / node / kernel from the tree weights (raw: argmax of 16 logits; only the nesting matters for loading)."""
+    import torch
+    if isinstance(sd_or_layer, dict):
+        keys = sorted((k for k in sd_or_layer if k.startswith("tree_weights.")), key=lambda k: tuple(int(x) for x in k.split(".")[1:3]))
+        levels = {}
+        for k in keys:
+            lv = int(k.split(".")[1])
+            levels.setdefault(lv, []).append(sd_or_layer[k].argmax(-1).tolist())
+        return [levels[lv] for lv in sorted(levels)]
+    return [[w.argmax(-1).tolist() for w in level] for level in sd_or_layer.tree_weights]
+
+
+def _gates_coq(g):
+    return "[" + "; ".join("[" + "; ".join(_nl(k) for k in lv) + "]" for lv in g) + "]"
+
+
+def _clayer(l):
+    return (f"{{| c_geom := {_geom(l._geometry())}; c_gates := {_gates_coq(_conv_gates(l))}; c_pairs := [" + "; ".join(_tens(p) for p in l.kernel_pairs)
+            + "]; c_indices := [" + "; ".join("[" + "; ".join(_tens(i) for i in lv) + "]" for lv in l.indices) + "] |}")
+
+
+def _csaved(sd):
+    ex = sd.get("_extra_state")
+    if ex is None:
+        extra = "None"
+    else:
+        g = f"(Some {_geom(ex['geometry'])})" if "geometry" in ex else "None"
+        extra = (f"(Some ({g}, [" + "; ".join(_tens(p) for p in ex["kernel_pairs"]) + "], ["
+                 + "; ".join("[" + "; ".join(_tens(i) for i in lv) + "]" for lv in ex.get("indices", [])) + "]))")
+    return f"{{| cs_gates := {_gates_coq(_conv_gates(sd))}; cs_extra := {extra} |}}"
+
+
+def _dlayer(l):
+    return (f"{{| dl_in := {l.in_dim}; dl_out := {l.out_dim}; dl_gates := {_nl(l.weight.argmax(-1).tolist())}; "
+            f"dl_a := {_zl(l.indices[0].tolist())}; dl_b := {_zl(l.indices[1].tolist())} |}}")
+
+
+def _dsaved(sd):
+    ex = sd.get("_extra_state")
+    extra = "None" if ex is None else "(Some [" + "; ".join(_zl(i.reshape(-1).tolist()) for i in ex["indices"]) + "])"
+    return f"{{| sv_gates := {_nl(sd['weight'].argmax(-1).tolist())}; sv_extra := {extra} |}}"
+
+
+def persist_model_vs_impl(ck):
+    """Model/Persist.dense_load / conv_load evaluated in the kernel against torch's load_state_dict: checkpoints of layers built with
+    the same arguments under another seed, of layers with another geometry, old-format checkpoints (no geometry / no extra state)
+    and tampered checkpoints.  Compared: accepted or refused, and on acceptance the installed wiring (kernel pairs, index tensors)."""
+    import copy
+    import torch
+    from torchlogix.layers import LogicDense, LogicConv2d, LogicConv3d
+    rng = ck.rng
+    cases = []          # (name, kind, fresh layer (before load), state dict, recompute literal or None)
+
+    def dense(i, o, conn="random"):
+        return LogicDense(i, o, device="cpu", connections=conn, weight_init="random")
+
+    def conv2(in_dim=(4, 4), ch=2, k=2, depth=1, rf=2, stride=1, pad=0, conn="random"):
+        return LogicConv2d(in_dim=in_dim, device="cpu", channels=ch, num_kernels=k, tree_depth=depth, receptive_field_size=rf, stride=stride,
+                           padding=pad, connections=conn, weight_init="random")
+
+    def conv3(in_dim=(3, 3, 3), ch=1, k=2, depth=1, rf=2, stride=1, pad=0, conn="random"):
+        return LogicConv3d(in_dim=in_dim, device="cpu", channels=ch, num_kernels=k, tree_depth=depth, receptive_field_size=rf, stride=stride,
+                           padding=pad, connections=conn)
+
+    def add(name, mk_src, mk_dst, tamper=None):
+        torch.manual_seed(rng.randrange(10 ** 6))
+        src = mk_src()
+        torch.manual_seed(rng.randrange(10 ** 6))
+        dst = mk_dst()
+        sd = copy.deepcopy(src.state_dict())
+        if tamper:
+            tamper(sd)
+        cases.append((name, "dense" if isinstance(dst, LogicDense) else "conv", dst, sd))
+
+    # same constructor arguments, another seed
+    add("dense-random", lambda: dense(7, 9), lambda: dense(7, 9))
+    add("dense-unique", lambda: dense(6, 9, "unique"), lambda: dense(6, 9, "unique"))
+    add("conv2d-random", lambda: conv2(pad=1, depth=2), lambda: conv2(pad=1, depth=2))
+    add("conv2d-unique", lambda: conv2(ch=3, conn="unique", stride=2), lambda: conv2(ch=3, conn="unique", stride=2))
+    add("conv2d-rect", lambda: conv2(in_dim=(3, 5), rf=3, pad=1), lambda: conv2(in_dim=(3, 5), rf=3, pad=1))
+    add("conv3d-random", lambda: conv3(), lambda: conv3())
+    add("conv3d-noncubic", lambda: conv3(in_dim=(3, 4, 5), rf=(2, 1, 3), ch=2), lambda: conv3(in_dim=(3, 4, 5), rf=(2, 1, 3), ch=2))
+    # another geometry
+    add("dense-wider-input", lambda: dense(10, 8), lambda: dense(4, 8))
+    add("dense-narrower-input", lambda: dense(4, 8), lambda: dense(10, 8))
+    add("dense-more-neurons", lambda: dense(6, 9), lambda: dense(6, 8))
+    for nm, a, b in [("in_dim", dict(in_dim=(5, 5)), dict(in_dim=(4, 4))), ("channels", dict(ch=3), dict(ch=2)), ("channels-up", dict(ch=1), dict(ch=2)),
+                     ("kernels", dict(k=3), dict(k=2)), ("depth", dict(depth=2), dict(depth=1)), ("rf", dict(rf=3), dict(rf=2)), ("rf-down", dict(rf=1), dict(rf=2)),
+                     ("stride", dict(stride=2), dict(stride=1)), ("padding", dict(pad=1), dict(pad=0))]:
+        add("conv2d-other-" + nm, lambda a=a: conv2(**a), lambda b=b: conv2(**b))
+    add("conv3d-other-rf-order", lambda: conv3(in_dim=(4, 4, 4), rf=(1, 2, 3)), lambda: conv3(in_dim=(4, 4, 4), rf=(3, 2, 1)))
+    add("conv3d-tuple-vs-int-rf", lambda: conv3(rf=(2, 2, 2)), lambda: conv3(rf=2))
+    # old formats
+    add("dense-no-extra-state", lambda: dense(7, 9), lambda: dense(7, 9), lambda sd: sd.pop("_extra_state"))
+    add("conv2d-no-extra-state", lambda: conv2(), lambda: conv2(), lambda sd: sd.pop("_extra_state"))
+    add("conv2d-no-geometry", lambda: conv2(pad=1), lambda: conv2(pad=1), lambda sd: sd["_extra_state"].pop("geometry"))
+    add("conv2d-no-geometry-other-stride", lambda: conv2(in_dim=(3, 3)), lambda: conv2(in_dim=(5, 5), stride=2), lambda sd: sd["_extra_state"].pop("geometry"))
+    add("conv2d-no-geometry-bigger-field", lambda: conv2(rf=3), lambda: conv2(rf=2), lambda sd: sd["_extra_state"].pop("geometry"))
+    # tampered
+    def t_dense(fn):
+        def f(sd):
+            a, b = (t.clone() for t in sd["_extra_state"]["indices"])
+            sd["_extra_state"]["indices"] = fn(a, b)
+        return f
+    add("dense-wire-out-of-range", lambda: dense(7, 9), lambda: dense(7, 9), t_dense(lambda a, b: (a, torch.cat([b[:-1], torch.tensor([7])]))))
+    add("dense-wire-last-input", lambda: dense(7, 9), lambda: dense(7, 9), t_dense(lambda a, b: (a, torch.cat([b[:-1], torch.tensor([6])]))))
+    add("dense-wire-negative", lambda: dense(7, 9), lambda: dense(7, 9), t_dense(lambda a, b: (torch.cat([torch.tensor([-1]), a[1:]]), b)))
+    add("dense-three-index-tensors", lambda: dense(7, 9), lambda: dense(7, 9), t_dense(lambda a, b: (a, b, a)))
+    add("dense-short-index-tensor", lambda: dense(7, 9), lambda: dense(7, 9), t_dense(lambda a, b: (a[:-1], b)))
+    def t_pairs(fn):
+        def f(sd):
+            sd["_extra_state"]["kernel_pairs"] = fn(*(t.clone() for t in sd["_extra_state"]["kernel_pairs"]))
+        return f
+    def setv(t, idx, v):
+        t[idx] = v
+        return t
+    add("conv2d-pair-beyond-field", lambda: conv2(), lambda: conv2(), t_pairs(lambda a, b: (setv(a, (0, 0, 0), 2), b)))
+    add("conv2d-pair-beyond-channels", lambda: conv2(), lambda: conv2(), t_pairs(lambda a, b: (a, setv(b, (1, 1, 2), 2))))
+    add("conv2d-pair-at-limit", lambda: conv2(), lambda: conv2(), t_pairs(lambda a, b: (setv(a, (0, 0, 1), 1), setv(b, (1, 1, 2), 1))))
+    add("conv2d-pair-negative", lambda: conv2(), lambda: conv2(), t_pairs(lambda a, b: (setv(a, (1, 0, 1), -1), b)))
+    add("conv2d-one-pair-tensor", lambda: conv2(), lambda: conv2(), t_pairs(lambda a, b: (a,)))
+    def t_geom(sd):
+        sd["_extra_state"]["geometry"]["stride"] = 2
+    add("conv2d-geometry-entry-altered", lambda: conv2(), lambda: conv2(), t_geom)
+    def t_idx(sd):
+        lv = list(sd["_extra_state"]["indices"][0])
+        lv[0] = lv[0][..., :-1, :].contiguous() if lv[0].ndim >= 2 else lv[0][:-1]
+        sd["_extra_state"]["indices"][0] = tuple(lv)
+    add("conv2d-index-tensor-other-shape", lambda: conv2(depth=2), lambda: conv2(depth=2), t_idx)
+    add("conv2d-index-level-missing", lambda: conv2(depth=2), lambda: conv2(depth=2), lambda sd: sd["_extra_state"]["indices"].pop())
+    def t_hand(sd):
+        a, b = sd["_extra_state"]["indices"][0]
+        sd["_extra_state"]["indices"][0] = (b.clone(), a.clone())
+    add("conv2d-hand-wired-indices", lambda: conv2(), lambda: conv2(), t_hand)
+
+    txt = ("From Coq Require Import ZArith List Bool Arith. Import ListNotations.\nFrom TLX Require Import Model.Persist.\n"
+           "Definition flat (l : clayer) : list (list Z) * list (list (list Z)) := (map dat (c_pairs l), map (map dat) (c_indices l)).\n")
+    plan = []
+    for ci, (name, kind, dst, sd) in enumerate(cases):
+        if kind == "dense":
+            txt += (f"Eval vm_compute in option_map (fun l => (dl_a l, dl_b l, dl_gates l, dense_wf l)) (dense_load {_dlayer(dst)} {_dsaved(sd)}).\n")
+        else:
+            ex = sd.get("_extra_state")
+            rc = "[]"
+            if ex is not None and "geometry" not in ex:
+                try:
+                    rc = "[" + "; ".join("[" + "; ".join(_tens(i) for i in lv) + "]" for lv in dst.get_indices_from_kernel_pairs(
+                        tuple(p.to(dst.device) for p in ex["kernel_pairs"]))) + "]"
+                except Exception:
+                    rc = "[]"
+            txt += f"Eval vm_compute in option_map flat (conv_load (fun _ _ => {rc}) {_clayer(dst)} {_csaved(sd)}).\n"
+        d2 = copy.deepcopy(dst)
+        try:
+            d2.load_state_dict(sd)
+            if kind == "dense":
+                obs = [d2.indices[0].tolist(), d2.indices[1].tolist(), d2.weight.argmax(-1).tolist(),
+                       all(i.shape == (d2.out_dim,) and int(i.min()) >= 0 and int(i.max()) < d2.in_dim for i in d2.indices)]
+            else:
+                obs = [[p.reshape(-1).tolist() for p in d2.kernel_pairs], [[i.reshape(-1).tolist() for i in lv] for lv in d2.indices]]
+        except Exception as e:
+            obs = None
+        plan.append((name, kind, obs))
+    rc, out, err = ck.coq_eval("c15load", txt, timeout=900)
+    if rc != 0:
+        ck.broke("correspondence", "kernel evaluation of Model/Persist (dense_load / conv_load)", err[-600:])
+        return
+    vals = coqio.parse_evals(out)
+    for (name, kind, obs), mv in zip(plan, vals):
+        ck.case({"kind": "load-decision", "name": name}, nontrivial=True, kind="load-decision")
+        if mv is not None:
+            mv = json.loads(json.dumps(mv))           # tuples -> lists
+        ck.count("load_accepted" if obs is not None else "load_refused")
+        if (mv is None) != (obs is None):
+            ck.broke("correspondence", "Model/Persist load decision vs load_state_dict",
+                     f"{name}: model {'refuses' if mv is None else 'accepts'}, load_state_dict {'refuses' if obs is None else 'accepts'}")
+        elif mv is not None and mv != obs:
+            ck.broke("correspondence", "Model/Persist loaded state vs load_state_dict", f"{name}: model {str(mv)[:200]} implementation {str(obs)[:200]}")
 
 
 def run(ck: Check):
@@ -25,8 +234,10 @@ def run(ck: Check):
                "mode switch afterwards) and the library and evaluates a 100-row probe batch (longer than a word); outputs must be identical to A's. Non-trivial: seed s2 != s1. "
                "Distinct = canonical JSON of (kind, model id, seeds, num_bits).")
     ck.translate("Persist", t_persist.gen_persist)
+    ck.translate("PersistSrc", t_persist.gen_persist_src)
     ck.translate("LibIO", t_libio.gen_libio)
     ck.prove("Props/C15", THEOREMS)
+    persist_model_vs_impl(ck)
     rng = ck.rng
     kinds = ["dense", "dense-unique", "conv2d", "conv2d-random", "conv3d", "dense-wide", "dense-nogs"]
     reps = 1 if ck.tier == "quick" else 4
